@@ -104,9 +104,15 @@ def run_case(case):
             n_run_draws = len(rec.log)
             before = snapshot(nm, el)
             answers = []
-            for q, i in case["queries"]:
+            for kq, (q, i) in enumerate(case["queries"]):
                 fn = getattr(el, QNAMES[q])
-                a = call_impl(fn, i)
+                style = (case.get("seed", 0) + kq) % 3
+                if i == -1 and style == 0:
+                    a = call_impl(fn)                      # the documented default round_number=-1
+                elif style == 1:
+                    a = call_impl(fn, round_number=i)
+                else:
+                    a = call_impl(fn, i)
                 answers.append(a)
             after = snapshot(nm, el)
     script, calls = rules.script_from_log(nm, rec.log, order=list(prof.candidates))
